@@ -458,7 +458,11 @@ def extract_docstring(node: Str) -> Tuple[int, str]:
         # TODO: remove me when python3.7 is not supported
         value = node.s
     lineno = extract_docstring_linenum(node)
-    return lineno, inspect.cleandoc(value)
+    docstring = inspect.cleandoc(value)
+    # Lone surrogates (e.g. written as '\\udc80' in the source) cannot be encoded to UTF-8, 
+    # the HTML writer would crash on them: display them as escape sequences.
+    docstring = docstring.encode('utf-8', 'backslashreplace').decode('utf-8')
+    return lineno, docstring
 
 
 def infer_type(expr: ast.expr) -> Optional[ast.expr]:
